@@ -184,6 +184,70 @@ def probe_traces(ctx):
                 for x in (lit, la, ld, st, gl, ir.Return(gl)):
                     b.add_instruction(x)
             probes.append(("literal_global:%s" % t, "LDR" + t.upper(), fn_module(build, t, [t])))
+        # constants at the boundaries of every type, as result and as operand
+        for t in types:
+            bits = {"i8": 8, "u8": 8, "i16": 16, "u16": 16, "i32": 32, "u32": 32, "i64": 64, "u64": 64}[t]
+            lo, hi = (-(1 << (bits - 1)), (1 << (bits - 1)) - 1) if t[0] == "i" else (0, (1 << bits) - 1)
+            for cv in sorted({x for x in (lo, lo + 1, -1, 0, 1, 127, 128, 255, 256, hi - 1, hi) if lo <= x <= hi}):
+                for how in ("ret", "add", "store"):
+                    def build(ir, f, b, ps, t=t, cv=cv, how=how):
+                        c = ir.Const(cv, "c", getattr(ir, t))
+                        b.add_instruction(c)
+                        if how == "ret":
+                            b.add_instruction(ir.Return(c))
+                        elif how == "add":
+                            r = ir.Binop(ps[0], "+", c, "r", getattr(ir, t))
+                            b.add_instruction(r)
+                            b.add_instruction(ir.Return(r))
+                        else:
+                            a = ir.Alloc("a", 8, 8)
+                            p = ir.AddressOf(a, "p")
+                            st = ir.Store(c, p)
+                            ld = ir.Load(p, "ld", getattr(ir, t))
+                            for x in (a, p, st, ld, ir.Return(ld)):
+                                b.add_instruction(x)
+                    probes.append(("const:%s:%s:%d" % (how, t, cv), "CONST" + t.upper(), fn_module(build, t, [t])))
+            # a used undefined value (allowed in well-formed IR; the code generator must cope)
+            def build_undef(ir, f, b, ps, t=t):
+                u = ir.Undefined("u", getattr(ir, t))
+                r = ir.Binop(ps[0], "+", u, "r", getattr(ir, t))
+                for x in (u, r, ir.Return(r)):
+                    b.add_instruction(x)
+            probes.append(("undefined_used:%s" % t, "UND" + t.upper(), fn_module(build_undef, t, [t])))
+        # addresses of externals / functions used as values
+        for kind in ("store_ext", "pass_ext", "ret_cmp_ext", "call_via_ptr"):
+            def build(ir, f, b, ps, kind=kind, T0=T0):
+                x = ir.ExternalFunction("handler", [getattr(ir, T0)], getattr(ir, T0))
+                f._vm.add_external(x)
+                ap = ir.ExternalFunction("apply", [ir.ptr, getattr(ir, T0)], getattr(ir, T0))
+                f._vm.add_external(ap)
+                if kind == "store_ext":
+                    g = ir.Variable("hook", ir.Binding.GLOBAL, 8, 8)
+                    f._vm.add_variable(g)
+                    b.add_instruction(ir.Store(x, g))
+                    b.add_instruction(ir.Return(ps[0]))
+                elif kind == "pass_ext":
+                    r = ir.FunctionCall(ap, [x, ps[0]], "r", getattr(ir, T0))
+                    b.add_instruction(r)
+                    b.add_instruction(ir.Return(r))
+                elif kind == "ret_cmp_ext":
+                    yes, no = ir.Block("yes"), ir.Block("no")
+                    f.add_block(yes)
+                    f.add_block(no)
+                    cp = ir.Cast(ps[0], "cp", ir.ptr)
+                    b.add_instruction(cp)
+                    b.add_instruction(ir.CJump(cp, "==", x, yes, no))
+                    yes.add_instruction(ir.Return(ps[0]))
+                    no.add_instruction(ir.Return(ps[0]))
+                else:
+                    a = ir.Alloc("a", 8, 8)
+                    p = ir.AddressOf(a, "p")
+                    st = ir.Store(x, p)
+                    fp = ir.Load(p, "fp", ir.ptr)
+                    r = ir.FunctionCall(fp, [ps[0]], "r", getattr(ir, T0))
+                    for i_ in (a, p, st, fp, r, ir.Return(r)):
+                        b.add_instruction(i_)
+            probes.append(("fnaddr:%s" % kind, "LABEL", fn_module(build, T0, [T0])))
         for name, opname, make in probes:
             ev, obj, msg = pipeline.run_pipeline(make, march, "0")
             out.append({"id": "C29:%s:probe:%s" % (march, name), "claim": "C29", "events": ev, "msg": msg,
